@@ -5,6 +5,7 @@ import (
 	"context"
 	"fmt"
 	"io"
+	"os"
 	"strings"
 	"testing"
 	"time"
@@ -55,6 +56,9 @@ type c06Op struct {
 
 type c06Case struct {
 	Ops []c06Op `json:"ops"`
+	// RejectRcpt > 0: the server refuses (550) the k-th RCPT of the transaction. A message that lost a
+	// recipient must not go out to the others as if nothing had happened.
+	RejectRcpt int `json:"reject_rcpt,omitempty"`
 }
 
 type c06Model struct {
@@ -278,6 +282,18 @@ func c06Run(c c06Case) []*core.Violation {
 				m.SetBodyString(mail.TypeTextPlain, "c06 body text\r\n")
 			}
 			_, _ = m.WriteTo(io.Discard)
+		case "sendmailfail":
+			// the caller hands the message to a local sendmail binary that fails (exit status 1), and
+			// falls back to SMTP afterwards: the failed attempt leaves nothing behind in the message
+			if _, serr := os.Stat("/bin/false"); serr == nil {
+				if len(m.GetParts()) == 0 {
+					m.SetBodyString(mail.TypeTextPlain, "c06 body text\r\n")
+				}
+				if err := m.WriteToSendmailWithCommand("/bin/false"); err == nil {
+					vs = append(vs, core.V("sendmail-failure-unreported", "WriteToSendmailWithCommand(/bin/false) returned nil"))
+				}
+				rec.AddExtra("failed_sendmail_runs", 1)
+			}
 		default:
 			return []*core.Violation{core.V("HARNESS-op", "unknown op %q", op.Kind)}
 		}
@@ -356,7 +372,11 @@ func c06Run(c c06Case) []*core.Violation {
 	checkField("Reply-To", model["replyto"])
 
 	// --- send
-	srv := refsmtp.NewServer(refsmtp.Script{Caps: []string{"8BITMIME", "SMTPUTF8"}, NoGreetProbe: true})
+	script := refsmtp.Script{Caps: []string{"8BITMIME", "SMTPUTF8"}, NoGreetProbe: true}
+	if c.RejectRcpt > 0 {
+		script.Steps = map[string]refsmtp.Outcome{fmt.Sprintf("rcpt#1.%d", c.RejectRcpt): {Kind: "reply", Code: 550, Text: "5.1.1 no such user"}}
+	}
+	srv := refsmtp.NewServer(script)
 	d := &refsmtp.Dialer{Srv: srv}
 	cfg := smtpCfg{TLS: "none"}
 	cl, err := mail.NewClient(refHost, cfg.options(d)...)
@@ -393,6 +413,23 @@ func c06Run(c c06Case) []*core.Violation {
 	if wantSender == "" || len(wantRcpts) == 0 {
 		if sendErr == nil || len(s.Txns) > 0 {
 			vs = append(vs, core.V("sent-without-envelope", "sender %q, %d recipients, but DialAndSend returned %v and the server saw %d MAIL commands", wantSender, len(wantRcpts), sendErr, len(s.Txns)))
+		}
+	} else if c.RejectRcpt > 0 && c.RejectRcpt <= len(wantRcpts) {
+		// one recipient of the list was refused: the message is not delivered to a part of the list
+		rec.Class("a-recipient-refused")
+		for _, t := range s.Txns {
+			if t.Committed {
+				var got []string
+				for _, r := range t.Rcpts {
+					if r.Accepted {
+						got = append(got, r.Path)
+					}
+				}
+				vs = append(vs, core.V("delivered-to-a-part-of-the-list", "RCPT %d of %d was refused (550), yet the message was committed for %v; To+Cc+Bcc = %v (DialAndSend returned %v)\n%s", c.RejectRcpt, len(wantRcpts), got, wantRcpts, sendErr, tr))
+			}
+		}
+		if sendErr == nil {
+			vs = append(vs, core.V("refused-recipient-unreported", "RCPT %d was refused (550) but DialAndSend returned nil", c.RejectRcpt))
 		}
 	} else {
 		if sendErr != nil || len(s.Txns) != 1 {
@@ -471,13 +508,16 @@ func c06Gen(t *rapid.T) c06Case {
 	seq := 0
 	n := rapid.IntRange(2, 12).Draw(t, "nops")
 	for i := 0; i < n; i++ {
-		kind := rapid.SampledFrom([]string{"set", "set", "add", "add", "addformat", "addformat", "ignoreinvalid", "fromstring", "setaddrheader", "setaddrheaderignoreinvalid", "reset", "render"}).Draw(t, "kind")
+		kind := rapid.SampledFrom([]string{"set", "set", "add", "add", "addformat", "addformat", "ignoreinvalid", "fromstring", "setaddrheader", "setaddrheaderignoreinvalid", "reset", "render", "sendmailfail"}).Draw(t, "kind")
+		if kind == "sendmailfail" && rapid.IntRange(0, 2).Draw(t, "reallysendmail") != 0 {
+			kind = "add"
+		}
 		if kind == "reset" && rapid.IntRange(0, 3).Draw(t, "reallyreset") != 0 {
 			kind = "add"
 		}
 		op := c06Op{Kind: kind}
 		switch kind {
-		case "reset", "render":
+		case "reset", "render", "sendmailfail":
 		case "add", "ignoreinvalid", "fromstring":
 			op.Hdr = rapid.SampledFrom([]string{"to", "cc", "bcc", "bcc"}).Draw(t, "hdr")
 		case "setaddrheaderignoreinvalid":
@@ -487,7 +527,7 @@ func c06Gen(t *rapid.T) c06Case {
 		}
 		single := kind == "add" || kind == "addformat" || (kind == "set" && (op.Hdr == "from" || op.Hdr == "env" || op.Hdr == "replyto"))
 		cnt := 1
-		if !single && kind != "reset" && kind != "render" {
+		if !single && kind != "reset" && kind != "render" && kind != "sendmailfail" {
 			cnt = rapid.IntRange(1, 4).Draw(t, "naddrs")
 			// calling a list setter with no address at all clears the list (one call in eight)
 			if (kind == "set" || kind == "fromstring" || kind == "setaddrheader" || kind == "ignoreinvalid") && op.Hdr != "from" && op.Hdr != "env" && op.Hdr != "replyto" && rapid.IntRange(0, 7).Draw(t, "emptylist") == 0 {
@@ -497,7 +537,7 @@ func c06Gen(t *rapid.T) c06Case {
 				cnt = 1
 			}
 		}
-		if kind != "reset" && kind != "render" {
+		if kind != "reset" && kind != "render" && kind != "sendmailfail" {
 			for j := 0; j < cnt; j++ {
 				a := c06GenAddr(t, op.Hdr, &seq)
 				if kind == "fromstring" && (strings.Contains(a.text(), ",") || a.Invalid == " ") {
@@ -513,14 +553,17 @@ func c06Gen(t *rapid.T) c06Case {
 		}
 		c.Ops = append(c.Ops, op)
 	}
+	if rapid.IntRange(0, 5).Draw(t, "rejectrcpt") == 0 {
+		c.RejectRcpt = rapid.IntRange(1, 4).Draw(t, "rejectwhich")
+	}
 	return c
 }
 
 func TestC06(t *testing.T) {
 	rec := core.Rec("C06")
-	rec.Rule = "rapid draws a sequence of 2..12 address-setting calls (list setters also with an empty argument list, which clears the list) over To/Cc/Bcc/From/EnvelopeFrom/ReplyTo: strict setters (To, Cc, Bcc, From, EnvelopeFrom, ReplyTo, SetAddrHeader), Add*, *Format, *IgnoreInvalid, *FromString, SetAddrHeaderIgnoreInvalid, Reset and an intermediate render of the message (which must change nothing), with display names that need quoting or RFC 2047 encoding, duplicates, and invalid entries mixed in (one in six). Bcc mailboxes are unique tokens. " +
+	rec.Rule = "rapid draws a sequence of 2..12 address-setting calls (list setters also with an empty argument list, which clears the list) over To/Cc/Bcc/From/EnvelopeFrom/ReplyTo: strict setters (To, Cc, Bcc, From, EnvelopeFrom, ReplyTo, SetAddrHeader), Add*, *Format, *IgnoreInvalid, *FromString, SetAddrHeaderIgnoreInvalid, Reset and an intermediate render of the message and a FAILED hand-over to a local sendmail command (both must change nothing), with display names that need quoting or RFC 2047 encoding, duplicates, and invalid entries mixed in (one in six). Bcc mailboxes are unique tokens. " +
 		"A model keeps the expected lists (replace vs append, all-or-nothing for strict setters, From keeps the first, IgnoreInvalid = subsequence of the valid inputs containing every valid ASCII-named input). The message is then rendered and sent with DialAndSend to the reference server. " +
-		"Oracle: setter verdicts match validity; envelope sender = envelope-from if set else From; RCPT sequence == To ++ Cc ++ Bcc in order, one per occurrence; no Bcc token in the rendered or transmitted bytes, raw or after decoding every header (RFC 2047) and leaf (QP/base64); no Bcc field; From (or envelope-from), To, Cc, Reply-To occur once and parse (own RFC 5322 parser) to the model's names and mailboxes. " +
+		"Oracle: setter verdicts match validity; envelope sender = envelope-from if set else From; RCPT sequence == To ++ Cc ++ Bcc in order, one per occurrence (one case in six the server refuses the k-th RCPT: then nothing is committed for a part of the list and the call reports it); no Bcc token in the rendered or transmitted bytes, raw or after decoding every header (RFC 2047) and leaf (QP/base64); no Bcc field; From (or envelope-from), To, Cc, Reply-To occur once and parse (own RFC 5322 parser) to the model's names and mailboxes. " +
 		"Non-trivial: >= 1 Bcc in the final model and >= 2 calls on the same list. Distinct by the call-kind sequence."
 	rec.Assumptions = []string{"what IgnoreInvalid does with a valid address whose display name is non-ASCII is not fixed by the property (the code drops it); the model follows the getter there"}
 	core.Prop[c06Case]{ID: "C06", Test: "TestC06", Gen: c06Gen, Run: c06Run}.Check(t)
